@@ -6,16 +6,19 @@
    branch over native integers in a small scope and checked against the definition of each operation.
 
    SplitFix = FALSE is the pinned tree (finding F04: the shortcut of split_at_point_internal returns the
-   context precision as the number of fraction digits instead of -exponent); TRUE is the repaired code. *)
+   context precision as the number of fraction digits instead of -exponent); TRUE is the repaired code.
+   WPFix = FALSE is the pinned tree (finding F90: with_precision compares the precisions numerically, so a
+   source of unlimited precision, encoded as 0, is never rounded); TRUE is the repaired code.
+   `unl`: the float carries unlimited precision (context precision 0); its significand still has <= p digits. *)
 EXTENDS RoundTables, Sequences
 CONSTANTS Scope,       \* set of 100 * base + max precision
           Modes, Ops, ExpLow,     \* exponents -(p + ExpLow) .. 2
-          SplitFix
+          SplitFix, WPFix
 
-VARIABLES pc, b, p, mode, op, sg, ex, dub, q,      \* float sg * b^ex at context precision p; q: target of with_precision
+VARIABLES pc, b, p, mode, op, sg, ex, dub, unl, q, \* float sg * b^ex at context precision p; q: target of with_precision
           ri, rfs, rfe, flag, branch                \* integer result (or hi part), float result rfs * b^rfe, flag
-vars == <<pc, b, p, mode, op, sg, ex, dub, q, ri, rfs, rfe, flag, branch>>
-inputs == <<b, p, mode, op, sg, ex, dub, q>>
+vars == <<pc, b, p, mode, op, sg, ex, dub, unl, q, ri, rfs, rfe, flag, branch>>
+inputs == <<b, p, mode, op, sg, ex, dub, unl, q>>
 ModeDependent == {"to_int", "with_precision"}
 
 Sigs(bb, pp) == {s \in -(NPow(bb, pp) - 1) .. (NPow(bb, pp) - 1) : s # 0 /\ s % bb # 0}
@@ -27,23 +30,25 @@ Init ==
   /\ \E sc \in Scope : b = sc \div 100 /\ p \in 1..(sc % 100)
   /\ op \in Ops
   /\ mode \in (IF op \in ModeDependent THEN Modes ELSE {"Zero"})
-  /\ sg = 0 /\ ex = 0 /\ dub = 0 /\ q = 0 /\ ri = 0 /\ rfs = 0 /\ rfe = 0 /\ flag = "" /\ branch = ""
+  /\ sg = 0 /\ ex = 0 /\ dub = 0 /\ unl = FALSE /\ q = 0 /\ ri = 0 /\ rfs = 0 /\ rfe = 0 /\ flag = "" /\ branch = ""
 
 Pick ==
   /\ pc = "pick"
   /\ sg' \in Sigs(b, p)
   /\ ex' \in -(p + ExpLow)..2
   /\ dub' \in {0, 1}
+  /\ unl' \in BOOLEAN
   /\ q' \in (IF op = "with_precision" THEN 0..(p + 1) ELSE {0})
   /\ pc' = "run"
   /\ UNCHANGED <<b, p, mode, op, ri, rfs, rfe, flag, branch>>
 
 (* ---------------- repr.rs ---------------- *)
+CP == IF unl THEN 0 ELSE p                            \* self.context.precision
 DigitsUb == DigitsN(sg, b) + dub                      \* Repr::digits_ub(): an over-estimate
 SmallerThanOne == ex + DigitsUb < -1                  \* Repr::smaller_than_one()
 \* round_ops.rs split_at_point_internal: (integral part, fractional part, fraction precision)
 SplitInternal ==
-  IF SmallerThanOne THEN <<0, sg, IF SplitFix THEN -ex ELSE p>>
+  IF SmallerThanOne THEN <<0, sg, IF SplitFix THEN -ex ELSE CP>>
   ELSE <<SplitHi(sg, -ex), SplitLo(sg, -ex), -ex>>
 NormF(s, e) == IF s = 0 THEN <<0, 0>> ELSE <<NormSigN(s, b), e + TrailN(s, b)>>      \* Repr::new
 
@@ -77,14 +82,17 @@ RunSplit ==
         \/ op = "fract" /\ Finish(nm, 0, NormF(s[2], ex), "")
         \/ op = "ceil" /\ ~SmallerThanOne /\ Finish(nm, s[1] + RoundFract("Up", b, s[1], s[2], s[3]), <<0, 0>>, "")
         \/ op = "floor" /\ ~SmallerThanOne /\ Finish(nm, s[1] + RoundFract("Down", b, s[1], s[2], s[3]), <<0, 0>>, "")
-        \/ op = "round" /\ ~(ex + DigitsUb < -2)
+        \* round_fract debug-asserts |fract| < B^precision (the harness is built with debug assertions)
+        \/ op = "round" /\ ~(ex + DigitsUb < -2) /\ NAbs(s[2]) >= NPow(b, s[3]) /\ Finish(nm, 0, <<0, 0>>, "PANIC")
+        \/ op = "round" /\ ~(ex + DigitsUb < -2) /\ NAbs(s[2]) < NPow(b, s[3])
              /\ Finish(nm, s[1] + RoundFract("HalfAway", b, s[1], s[2], s[3]), <<0, 0>>, "")
-        \/ op = "to_int"
+        \/ op = "to_int" /\ NAbs(s[2]) >= NPow(b, s[3]) /\ Finish(nm, 0, <<0, 0>>, "PANIC")
+        \/ op = "to_int" /\ NAbs(s[2]) < NPow(b, s[3])
              /\ LET a == RoundFract(mode, b, s[1], s[2], s[3]) IN Finish(nm, s[1] + a, <<0, 0>>, FlagOf(a))
 \* with_precision: repr_round when the precision shrinks (0 = unlimited: never rounds)
 RunWithPrecision ==
   /\ pc = "run" /\ op = "with_precision"
-  /\ IF p > q /\ q # 0 /\ DigitsN(sg, b) > q
+  /\ IF (IF WPFix THEN unl \/ CP > q ELSE CP > q) /\ q # 0 /\ DigitsN(sg, b) > q
      THEN LET shift == DigitsN(sg, b) - q
               hi == SplitHi(sg, shift)  lo == SplitLo(sg, shift)
               a == RoundFract(mode, b, hi, lo, shift)
@@ -103,6 +111,7 @@ FractOK == IF ex >= 0 THEN rfs = 0
            ELSE IF rfs = 0 THEN Nn - TruncX * Dd = 0
            ELSE rfe >= ex /\ rfs * NPow(b, rfe - ex) = Nn - TruncX * Dd
 Why ==
+  IF flag = "PANIC" THEN "unexpected-panic" ELSE
   CASE op = "trunc" -> IF ri = TruncX THEN "" ELSE "wrong-value"
     [] op = "floor" -> IF ri = Nn \div Dd THEN "" ELSE "wrong-value"
     [] op = "ceil" -> IF ri = -((-Nn) \div Dd) THEN "" ELSE "wrong-value"
@@ -115,12 +124,15 @@ Why ==
                              ELSE IF (flag = "Exact") # (ri * Dd = Nn) THEN "exact-flag-untruthful" ELSE ""
     [] op = "with_precision" ->
          LET k == IF NMin(ex, rfe) < 0 THEN -NMin(ex, rfe) ELSE 0 IN
-         IF q = 0 \/ q >= p
+         IF q = 0 \/ (~unl /\ q >= p)               \* unlimited target, or not below the current precision
          THEN (IF rfs * NPow(b, rfe + k) = sg * NPow(b, ex + k) /\ flag = "Exact" THEN "" ELSE "not-kept-exactly")
          ELSE RoundedNatWhy(b, q, mode, sg * NPow(b, ex + k), rfs * NPow(b, rfe + k), flag)
 \* Finding F04 (open while SplitFix = FALSE): round / to_int of a number that takes the shortcut of
 \* split_at_point_internal while its precision differs from the number of fraction digits
-KnownF04 == ~SplitFix /\ op \in {"round", "to_int"} /\ ex < 0 /\ SmallerThanOne /\ p # -ex
-Correct == pc = "done" => (Why = "" \/ KnownF04)
+KnownF04 == ~SplitFix /\ op \in {"round", "to_int"} /\ ex < 0 /\ SmallerThanOne /\ CP # -ex
+\* Finding F90 (open while WPFix = FALSE): with_precision(q) of a float of unlimited precision with more than q digits
+KnownF90 == ~WPFix /\ op = "with_precision" /\ unl /\ q # 0 /\ DigitsN(sg, b) > q
+Correct == pc = "done" => (Why = "" \/ KnownF04 \/ KnownF90)
+F90Absent == ~(pc = "done" /\ KnownF90 /\ Why # "")
 F04Absent == ~(pc = "done" /\ KnownF04 /\ Why # "")
 =============================================================================
